@@ -89,6 +89,7 @@ Definition verdict_eqb (a b : verdict) : bool :=
 
 (* ---- a recorded case ---- *)
 Record tstep := mkStep {
+  t_restart : bool;                     (* lnd was restarted before this message *)
   t_now : N; t_peer : N; t_cid : N;     (* content id of the message bytes *)
   t_msg : msg;
   t_res : verdict;                      (* verdict on this message's future *)
@@ -144,6 +145,7 @@ Fixpoint check_steps (c : tcase) (st : state) (i : N) (ts : list tstep)
   | [] => (rel, rev bad)
   | t :: r =>
     let cids' := ainsert i (t_cid t) cids in
+    let st := if t_restart t then restart st else st in
     let '(st', outs) := mstep c (t_now t) (t_peer t) i st (t_msg t) in
     let ok :=
       match outs with
@@ -184,6 +186,7 @@ Fixpoint model_at (c : tcase) (st : state) (i : N) (ts : list tstep) (n : nat)
   match ts with
   | [] => None
   | t :: r =>
+    let st := if t_restart t then restart st else st in
     let '(st', outs) := mstep c (t_now t) (t_peer t) i st (t_msg t) in
     match n with
     | O => Some (st', outs)
